@@ -832,6 +832,7 @@ func checkC19(c *Ctx) {
 	checkHexTables(c, "C19.hex-tables")
 	checkC19Round2(c)
 	checkC19DumpFunctionsSkipMacros(c)
+	checkRound8C19(c)
 	checkC19PrefixPlain(c)
 	checkKeyCodeTables(c, "C19.key-code-tables")
 }
